@@ -1022,10 +1022,43 @@ def fam_lanes(P, n, tier):
     return out
 
 
+def fam_search(P, n, tier):
+    """the by-name lookup helpers of the public API (strcmp scans): exact names, case variants, prefixes,
+    extensions, duplicates, unknown names; variable names present / absent / duplicated"""
+    out = []
+    for i in range(n):
+        sc = rand_desc(P, 'srch%d' % i, mutex=False, cap=1)
+        names = [c.name for c in sc.cmds()]
+        for j in range(P.randint(4, 14)):
+            nm = P.choice(names)
+            roll = P.random()
+            if roll < 0.4:
+                q = nm
+            elif roll < 0.55:
+                q = nm.swapcase()
+            elif roll < 0.7 and len(nm) > 1:
+                q = nm[:P.randint(1, len(nm) - 1)]
+            elif roll < 0.85:
+                q = nm + P.choice(['A', '1', '+'])
+            else:
+                q = rand_name(P, 5, alpha=NAME_ALPHA)
+            sc.op('sc ' + hx(q))
+        for c in sc.pool():
+            for v in c.vars[:3]:
+                q = v.name if (v.name is not None and P.chance(0.7)) else rand_name(P, 4, alpha='xyzw', lower=0)
+                if P.chance(0.2) and q:
+                    q = q[:-1]
+                sc.op('sv %d %s' % (c.ci, hx(q)) if q else 'sv %d E' % c.ci)
+        sc.feed('AT\n')
+        sc.drain(200)
+        out.append(sc)
+    return out
+
+
 FAMILIES = {
     'mixed': fam_mixed, 'names': fam_names, 'num': fam_num, 'buf': fam_buf, 'cap': fam_cap, 'rc': fam_rc,
     'events': fam_events, 'hold': fam_hold, 'mutex': fam_mutex, 'lines': fam_lines, 'rt': fam_rt,
-    'wo': fam_wo, 'list': fam_list, 'bytes': fam_bytes, 'sched': fam_sched, 'units': fam_units, 'lanes': fam_lanes,
+    'wo': fam_wo, 'list': fam_list, 'bytes': fam_bytes, 'sched': fam_sched, 'units': fam_units, 'lanes': fam_lanes, 'search': fam_search,
 }
 
 
